@@ -107,6 +107,20 @@ GoodProofs(pl) == {i \in DOMAIN pl : pl[i].bad = "none"}
 ProofListClass(pl) == IF GoodProofs(pl) = {} THEN "5xx" ELSE "5xx-or-wellformed"
 LowestIndexAt(pl) == {i \in DOMAIN pl : \A j \in DOMAIN pl : pl[i].idx <= pl[j].idx}
 
+(* ---- get-entry-and-proof: the reply judged against the REQUEST ---- *)
+\* Whether a GetEntryAndProof reply "whose optional parts are absent" is malformed depends on what was asked: the
+\* audit path of leaf i in a tree of n leaves has no node exactly when n = 1 (RFC 6962 2.1.1: PATH(0, {d0}) = {}).
+\* The absent-part classes are therefore crossed with the request shape (leaf_index, tree_size): the first / a middle /
+\* the last leaf; a tree of one leaf, of two, a power of two, not a power of two (the backend's tree has 5 leaves).
+\* NAMED CLAUSE SingleLeafEmptyPath.  A reply that carries the leaf and a Proof without hashes to a request with
+\* tree_size = 1 is the HONEST reply (not a fault): 200 with an empty audit_path.  For every other shape it is a reply
+\* whose proof is absent: 5xx.  A nil Proof message, a nil leaf and an empty leaf value are absent parts under every shape.
+EntryShapes == {[leaf |-> 0, size |-> 1], [leaf |-> 0, size |-> 2], [leaf |-> 0, size |-> 4], [leaf |-> 0, size |-> 5],
+                [leaf |-> 1, size |-> 2], [leaf |-> 1, size |-> 3], [leaf |-> 3, size |-> 4], [leaf |-> 4, size |-> 5]}
+EntryReplyFaults == {"nilLeaf", "emptyLeafValue", "nilProof", "emptyProofHashes"}
+EmptyPathLegit(s) == s.size = 1
+EntryShapeClass(m, s) == IF m = "emptyProofHashes" /\ EmptyPathLegit(s) THEN "200" ELSE "5xx"
+
 (* ---- the leaf QueueLeaf echoes, field by field (RFC 6962 3.4 / 3.2 / 3.1) ---- *)
 \*   struct { Version version; MerkleLeafType leaf_type;
 \*            select (leaf_type) { case timestamped_entry: TimestampedEntry; } } MerkleTreeLeaf;
@@ -159,10 +173,12 @@ EchoClass(e) == IF ~EchoVersionAsserted /\ OnlyVersionDeviates(e) THEN "unassert
 Fault == [kind : {"code"}, code : Codes] \cup [kind : {"malformed"}, class : STRING]
          \cup [kind : {"malformed"}, class : {"echoedLeafFields"}, echo : EchoFaults]
          \cup [kind : {"malformed"}, class : {"proofList"}, proofs : ProofLists]
+         \cup [kind : {"malformed"}, class : EntryReplyFaults, shape : EntryShapes]
 
 Expected(ep, f) == IF f.kind = "code" THEN CodeClass(f.code)
                    ELSE IF f.class = "echoedLeafFields" THEN EchoClass(f.echo)
                    ELSE IF f.class = "proofList" THEN ProofListClass(f.proofs)
+                   ELSE IF "shape" \in DOMAIN f THEN EntryShapeClass(f.class, f.shape)
                    ELSE MalformedClass(f.class)
 
 (* ---- bad requests: 4xx before any backend call ---- *)
@@ -184,6 +200,19 @@ ParamClasses(ep) ==
                                       "overflowTreeSize", "nonNumericIndex", "indexNotBelowTreeSize"}
     [] OTHER -> {}
 
+(* ---- wrong methods, token by token ---- *)
+\* "Wrong HTTP methods ... are rejected with 4xx before any backend call."  The method of a request is a TOKEN and
+\* tokens are case-sensitive (RFC 9110 9.1: "The method token is case-sensitive"): get, Get, gET are not GET.  Every
+\* token that is not exactly the endpoint's method is a wrong method - the other standard methods and the tokens that
+\* differ from GET / POST by letter case only (of the endpoint's own method and of the other one).  The request is
+\* otherwise the valid one (query / body), so an endpoint that lets the token through reaches its backend.
+RightMethod(ep) == IF ep \in {"add-chain", "add-pre-chain"} THEN "POST" ELSE "GET"
+CaseVariants == {"get", "Get", "gET", "GEt", "post", "Post", "pOST", "POSt"}
+MethodTokens == {"GET", "POST", "HEAD", "PUT", "DELETE", "PATCH", "OPTIONS"} \cup CaseVariants
+WrongTokens(ep) == MethodTokens \ {RightMethod(ep)}
+MethodCases == {[t |-> "param", ep |-> ep, class |-> "wrongMethodToken", method |-> tok] : ep \in Endpoints, tok \in MethodTokens \ {"GET", "POST"}}
+               \cup UNION {{[t |-> "param", ep |-> ep, class |-> "wrongMethodToken", method |-> tok] : tok \in {"GET", "POST"} \ {RightMethod(ep)}} : ep \in Endpoints}
+
 (* ---- case enumeration ---- *)
 VARIABLE c
 
@@ -199,9 +228,12 @@ EchoCases == {[t |-> "fault", ep |-> ep, fault |-> [kind |-> "malformed", class 
 \* the proof lists of get-proof-by-hash
 ProofListCases == {[t |-> "fault", ep |-> "get-proof-by-hash", fault |-> [kind |-> "malformed", class |-> "proofList", proofs |-> pl], pos |-> p, mask |-> m] :
                       pl \in ProofLists, p \in 1..3, m \in BOOLEAN}
+\* get-entry-and-proof: absent parts x request shape
+EntryShapeCases == {[t |-> "fault", ep |-> "get-entry-and-proof", fault |-> [kind |-> "malformed", class |-> x, shape |-> sh], pos |-> p, mask |-> m] :
+                       x \in EntryReplyFaults, sh \in EntryShapes, p \in 1..3, m \in BOOLEAN}
 ParamCases == UNION {{[t |-> "param", ep |-> ep, class |-> x] : x \in ParamClasses(ep)} : ep \in Endpoints}
 
-Init == c \in FaultCases \cup EchoCases \cup ProofListCases \cup ParamCases
+Init == c \in FaultCases \cup EchoCases \cup ProofListCases \cup EntryShapeCases \cup ParamCases \cup MethodCases
 Next == UNCHANGED c
 
 Exp(x) == IF x.t = "param" THEN "4xx-nobackend"
@@ -212,8 +244,10 @@ Exp(x) == IF x.t = "param" THEN "4xx-nobackend"
 \* (the only case without a demanded status class is the named clause EchoVersionUnasserted)
 IsProofList(x) == x.t = "fault" /\ x.fault.kind = "malformed" /\ x.fault.class = "proofList"
 IsCode(x) == x.t = "fault" /\ x.fault.kind = "code"
+IsEntryShape(x) == x.t = "fault" /\ x.fault.kind = "malformed" /\ "shape" \in DOMAIN x.fault
 NeverOK == \/ Exp(c) \in {"4xx", "429", "503", "504", "5xx", "4xx-nobackend"}
            \/ IsCode(c) /\ c.mapped # 0 /\ Exp(c) = StatusName(c.mapped)             \* MapperOverrides
+           \/ IsEntryShape(c) /\ Exp(c) = "200" /\ c.fault.class = "emptyProofHashes" /\ EmptyPathLegit(c.fault.shape)   \* SingleLeafEmptyPath: not a fault
            \/ IsProofList(c) /\ Exp(c) = "5xx-or-wellformed" /\ GoodProofs(c.fault.proofs) # {}    \* ServedProofUnasserted
            \/ /\ Exp(c) = "unasserted" /\ ~EchoVersionAsserted
               /\ c.t = "fault" /\ c.fault.kind = "malformed" /\ c.fault.class = "echoedLeafFields" /\ OnlyVersionDeviates(c.fault.echo)
@@ -254,5 +288,27 @@ ProofListDimensionComplete ==
   /\ \E pl \in ProofLists : Len(pl) = 3 /\ pl[1].bad = "none" /\ pl[2].bad = "none" /\ pl[3].bad # "none" /\ LowestIndexAt(pl) = {3}
   /\ \E pl \in ProofLists : Len(pl) = 3 /\ GoodProofs(pl) = {}
   /\ \E pl \in ProofLists : Len(pl) = 2 /\ LowestIndexAt(pl) = {1, 2} /\ pl[2].bad # "none" /\ pl[1].bad = "none"
+\* the request-shape dimension: a reply without proof hashes is acceptable exactly for a tree of one leaf; the shapes
+\* hold the first leaf of larger trees (where "leaf_index = 0" and "tree_size = 1" differ), later leaves, the last leaf
+EntryShapeLaws ==
+     IsEntryShape(c) => LET sh == c.fault.shape IN
+        /\ sh.leaf < sh.size /\ sh.size \in 1..5
+        /\ (Exp(c) = "200" <=> (c.fault.class = "emptyProofHashes" /\ sh.size = 1))
+        /\ (Exp(c) # "200" => Exp(c) = "5xx")
+EntryShapeDimensionComplete ==
+  /\ \E sh \in EntryShapes : sh.size = 1
+  /\ \E sh \in EntryShapes : sh.leaf = 0 /\ sh.size = 2
+  /\ \E sh \in EntryShapes : sh.leaf = 0 /\ sh.size > 2
+  /\ \E sh \in EntryShapes : sh.leaf > 0 /\ sh.leaf + 1 < sh.size
+  /\ \E sh \in EntryShapes : sh.leaf > 0 /\ sh.leaf + 1 = sh.size
+\* the method dimension: no case carries the endpoint's own token; every endpoint meets a case variant of its own
+\* method and of the other one
+MethodLaws ==
+     (c.t = "param" /\ c.class = "wrongMethodToken") => (c.method # RightMethod(c.ep) /\ c.method \in WrongTokens(c.ep) /\ Exp(c) = "4xx-nobackend")
+MethodDimensionComplete ==
+  \A ep \in Endpoints : /\ \E x \in MethodCases : x.ep = ep /\ x.method \in {"get", "Get", "gET", "GEt"}
+                        /\ \E x \in MethodCases : x.ep = ep /\ x.method \in {"post", "Post", "pOST", "POSt"}
+                        /\ \E x \in MethodCases : x.ep = ep /\ x.method \in {"GET", "POST"}
+                        /\ \A x \in MethodCases : x.ep = ep => x.method # RightMethod(ep)
 RetryableOnlyForTransient == (c.t = "fault" /\ c.fault.kind = "malformed") => Exp(c) \notin {"429", "503", "504"}
 =============================================================================
